@@ -967,7 +967,32 @@ class FuncEmitter:
             for x in pl:
                 if x[0] == 'cast' and x[2] == 'bitcast' and x[4][0] == 'local': self.castdef[x[1]] = (x[3], x[4])
         out = []
+        # blocks are emitted in reverse post-order of the CFG: every backward goto is then a genuine loop back edge
+        # (clang's layout sometimes places an inner loop after its outer loop's latch; cbmc would see the jump back
+        # into the outer body as a second, overlapping loop and mis-count unwindings)
+        succ = {}
         for b, pl in parsed.items():
+            t = pl[-1] if pl else ('unreachable',)
+            ss = []
+            if t[0] == 'br': ss = [t[1]]
+            elif t[0] == 'cbr': ss = [t[2], t[3]]
+            elif t[0] == 'switch': ss = [t[3]] + [cl for cv, cl in t[4]]
+            elif t[0] == 'call' and t[6]: ss = [t[6]]
+            succ[b] = [x_ for x_ in ss if x_ in parsed]
+        order = []; seen = set()
+        stack = [(f.entry, iter(succ.get(f.entry, [])))]; seen.add(f.entry)
+        while stack:
+            node, it_ = stack[-1]
+            adv = False
+            for nx in it_:
+                if nx not in seen:
+                    seen.add(nx); stack.append((nx, iter(succ.get(nx, [])))); adv = True; break
+            if not adv:
+                order.append(node); stack.pop()
+        order.reverse()
+        order += [b for b in parsed if b not in seen]       # unreachable blocks (landing pads) last
+        for b in order:
+            pl = parsed[b]
             out.append('%s: ;' % self.lab(b))
             self.cur = b
             for x in pl:
